@@ -1,8 +1,10 @@
 #!/bin/bash
-# usage: try_seeded.sh <patch.diff> <check id>...   — applies the patch to /repo, runs the quick checks, reverts.
+# usage: try_seeded.sh <patch.diff> <check id>...   — applies the patch to /repo (or to the worktree of /repo named by
+# VERIF_REPO, together with VERIF_CACHE), runs the quick checks, reverts.
 patch="$1"; shift
-cd /repo || exit 9
-if [ -n "$(git status --porcelain --untracked-files=no)" ]; then echo "/repo not clean"; exit 9; fi
+repo="${VERIF_REPO:-/repo}"
+cd "$repo" || exit 9
+if [ -n "$(git status --porcelain --untracked-files=no)" ]; then echo "$repo not clean"; exit 9; fi
 if ! git apply --check "$patch" 2>/dev/null; then
   if ! git apply --3way "$patch" >/dev/null 2>&1 || grep -rq '^<<<<<<< ' src 2>/dev/null; then git reset -q --hard HEAD; echo "PATCH DOES NOT APPLY (conflict): $patch"; exit 8; fi
 else git apply "$patch"; fi
@@ -12,4 +14,4 @@ for id in "$@"; do
   echo "== $id exit=$rc :: $(echo "$out" | grep -c '^VIOLATION') violations :: $(echo "$out" | grep -m1 'role=' | cut -c1-220)"
   echo "$out" | grep "INCONCLUSIVE" | head -3 | cut -c1-250
 done
-git -C /repo reset -q --hard HEAD ; git -C /repo status --porcelain --untracked-files=no | head -3
+git -C "$repo" reset -q --hard HEAD ; git -C "$repo" status --porcelain --untracked-files=no | head -3
